@@ -89,7 +89,8 @@ def reference_command(name, r, with_data):
     if name in ('CStoreRQMessage', 'CFindRQMessage', 'CGetRQMessage', 'CMoveRQMessage'):
         fields[R.TAG_PRIORITY] = r.choice([0, 1, 2])
     if name == 'CMoveRQMessage':
-        fields[R.TAG_MOVE_DESTINATION] = 'DEST'
+        # (AE titles travel space-padded, often to their full 16 characters)
+        fields[R.TAG_MOVE_DESTINATION] = r.choice(['DEST', 'DEST'.ljust(16), 'STORE-SCP-1 ', '  DEST  '])
     if name in ('CStoreRQMessage', 'CStoreRSPMessage'):
         fields[R.TAG_AFFECTED_SOP_INSTANCE] = gen.rand_uid(r, r.randrange(5, 40)).decode() or '1'
     return R.build_command_set(fields), fields
